@@ -865,6 +865,7 @@ func (c *wsConn) handleWsConn(ctx context.Context) {
 				}
 			}
 			timeoutTimer.Reset(c.timeout)
+			vhook("main.arm", c)
 
 			timeoutCh = timeoutTimer.C
 		}
